@@ -56,9 +56,16 @@ class Architecture:
         for config in self.yaml["architecture"]:
             subtrees[config] = self.yaml["architecture"][config].copy()
 
+        # A level shared through a YAML alias is one dictionary: since the
+        # names are rewritten in place, it must only be parsed once
+        parsed = set()
         for config in subtrees:
             while subtrees[config]:
                 tree = subtrees[config].pop()
+
+                if id(tree) in parsed:
+                    continue
+                parsed.add(id(tree))
 
                 if "name" not in tree.keys():
                     raise ValueError("Unnamed subtree: " + repr(tree))
